@@ -297,7 +297,9 @@ def try_build(res, name, f, args_desc, valid, bucket=None):
 
 
 P_VALID = [0.1, 0.0, 1.0, 0.5, 0.25, 0.75, 1e-12, 1 - 1e-12, 1e-3, 0.999, 1 / 3]
-P_INVALID = [1.5, -0.1, 1.0000001, -1e-7, 2, -1, INF, -INF]
+# out of range by any amount, down to one unit in the last place: the documented ranges are exact
+P_INVALID = [1.5, -0.1, 1.0000001, -1e-7, 2, -1, INF, -INF, 1 + 5e-9, -2e-10, 1 + 1e-12, -1e-15, math.nextafter(1.0, 2.0),
+             -5e-324]
 SUM_ONE = [(0.9, 0.1), (0.1, 0.9), (0.8, 0.2), (0.2, 0.8), (0.7, 0.3), (0.3, 0.7), (0.6, 0.4), (0.5, 0.5), (1.0, 0.0), (0.0, 1.0),
            (1 / 3, 2 / 3), (0.25, 0.75), (0.999, 0.001), (0.15, 0.85)]
 
